@@ -23,7 +23,19 @@ def comps(**kw):
             gp_component("memb", False, extra_invariants=INV, **kw))
 
 
+def _flavor_parts(ctx):
+    # the qsbr and bp flavors (their own specifications and drivers)
+    from props import qsbr_parts, bp_parts
+    ctx.extra.setdefault("flavors_covered", []).extend(["mb", "memb+sys_membarrier", "memb without sys_membarrier"])
+    if len(ctx.violations) < conc.MAXV:
+        qsbr_parts.run_c15(ctx); ctx.extra["flavors_covered"].append("qsbr")
+    if len(ctx.violations) < conc.MAXV:
+        bp_parts.run_c15(ctx); ctx.extra["flavors_covered"].append("bp (registry arena, thread exit, signals blocked during registration)")
+
+
 def run(ctx):
+    if COV:         # coverage pass: the flavor parts first (a forced schedule that a coverage build cannot follow must not hide them)
+        _flavor_parts(ctx)
     q = ctx.quick()
     n, sim = (40, 12) if q else (400, 100)
     mb, ms, mn = comps()
@@ -52,13 +64,8 @@ def run(ctx):
     for scn, comp, tso, sbmax in live:
         C02.liveness(ctx, comp, scn, tso=tso, sbmax=sbmax, invariants=INV)
     C02.finish(ctx)
-    # the qsbr and bp flavors (their own specifications and drivers)
-    from props import qsbr_parts, bp_parts
-    ctx.extra.setdefault("flavors_covered", []).extend(["mb", "memb+sys_membarrier", "memb without sys_membarrier"])
-    if len(ctx.violations) < conc.MAXV:
-        qsbr_parts.run_c15(ctx); ctx.extra["flavors_covered"].append("qsbr")
-    if len(ctx.violations) < conc.MAXV:
-        bp_parts.run_c15(ctx); ctx.extra["flavors_covered"].append("bp (registry arena, thread exit, signals blocked during registration)")
+    if not COV:
+        _flavor_parts(ctx)
 
 
 def replay(ctx, path):
